@@ -49,6 +49,7 @@ def run(ctx):
     x10(ctx, R)
     x11(ctx, R)
     x12(ctx, R)
+    x14(ctx, R)
     x13(ctx, R)
     x14(ctx, R)
     l7(ctx, R)
@@ -1364,6 +1365,48 @@ def x11(ctx, R):
             ctx.holds("X11", "curlineno is computed by %s (its value is rule Z2 of C18; it raises nothing of its own)" % t[:40])
         else:
             ctx.violation("X11", ln, "lineno-formula", "curlineno is %s, not 1 + number of newlines before the position" % t, node=ln.node)
+
+
+# ------------------------------------------------------------------------------- X14
+def x14(ctx, R):
+    """The position functions rescan the text up to the current offset (one pass each): called once per token they make parsing
+    quadratic.  Outside the funnel's handler they may only run under the debug switch."""
+    ctx.rule("X14", "linear rescans of the text (curlineno / curcolno) are not performed per token: only in the handler or under `debug`")
+    from .c18 import position_helpers
+    helpers = position_helpers(R)
+    tr, _caught = funnel(ctx, R, "X14")
+    n = 0
+    bad = 0
+    for f in [R.parse] + [g for g in R.reachable() if g.cls is R.Parser and g is not R.parse]:
+        cfg = None
+        for c in walk_no_nested(f.node):
+            if not (isinstance(c, ast.Call) and isinstance(c.func, ast.Attribute) and c.func.attr in helpers and "lexer" in norm(c.func.value)):
+                continue
+            # inside an exception handler: once per rejected script
+            p_ = getattr(c, "_parent", None)
+            inh = False
+            while p_ is not None and p_ is not f.node:
+                if isinstance(p_, ast.ExceptHandler):
+                    inh = True
+                p_ = getattr(p_, "_parent", None)
+            if inh:
+                continue
+            n += 1
+            cfg = cfg or ctx.cfg(f)
+
+            def debug_on(fc):
+                e, pol = fact_atom(fc)
+                return isinstance(e, ast.Attribute) and "debug" in e.attr.lower() and pol is True
+            nodes = cfg.node_containing(c)
+            if nodes and all(cfg.guarded(x, debug_on) for x in nodes):
+                continue
+            bad += 1
+            ctx.violation("X14", f, "rescan-per-token:%s" % c.func.attr, "%s calls %s outside the error handler and not under the debug switch: every "
+                          "token rescans the text before it, parsing time grows with the square of the script size" % (f.qualname, norm(c)[:40]),
+                          node=c, witness="a 200 KB script takes tens of times longer than eight 25 KB ones")
+    if not bad:
+        ctx.holds("X14", "%d calls of the position functions outside the handler, each under the debug switch" % n if n else
+                  "the position functions are called only in the funnel's handler")
 
 
 # ------------------------------------------------------------------------------- L7
